@@ -206,7 +206,9 @@ class VariableVisitor(ast.NodeVisitor):
         from guppylang_internals.cfg.analysis import LivenessAnalysis
 
         stats = {bb: bb.compute_variable_stats() for bb in node.cfg.bbs}
-        live = LivenessAnalysis(stats).run(node.cfg.bbs)
+        # Unreachable code in the nested function is type checked as well, so the
+        # variables it reads must also be captured
+        live = LivenessAnalysis(stats, include_unreachable=True).run(node.cfg.bbs)
 
         # Only store used *external* variables: things defined in the current BB, as
         # well as the function name and argument names should not be included
